@@ -771,6 +771,11 @@ func (m *MutableOverlayWorld) FindReferences(id b6.FeatureID, typed ...b6.Featur
 
 	baseReferences := m.base.FindReferences(id) // Not limiting by type in base search.
 	for baseReferences.Next() {
+		if m.features.HasFeatureWithID(baseReferences.FeatureID()) {
+			// Shadowed by a modified version of the feature, whose current
+			// references are recorded in m.references.
+			continue
+		}
 		references[baseReferences.FeatureID()] = true
 		for _, reference := range m.references.FindReferences(baseReferences.FeatureID(), typed...) {
 			references[reference.Source()] = true
